@@ -309,14 +309,24 @@ def rule_R14_4(ctx):
                    "assigning parameters, or binding them in an existing "
                    "scope, lets a call overwrite the caller's variables")
     found = 0
+    import c04
     for f in prog.hand_fns():
-        if f.is_closure or f.from_expansion:
+        if f.from_expansion:
             continue
         import anchors
         pushers = {p.path for p in anchors.scope_pushers(prog)}
-        pushes = [c for c in f.calls() if not c.is_ptr and c.res in pushers]
-        if not pushes:
-            continue
+        lent = None
+        if f.is_closure:
+            # a closure that a callback-style pusher lends the new chain to
+            lent = c04._lent_by_pusher(prog, f, 2)
+            if lent is None:
+                continue
+            pushes = []
+        else:
+            pushes = [c for c in f.calls() if not c.is_ptr and c.res in pushers
+                      and anchors.callback_param(prog.fns[c.res]) is None]
+            if not pushes:
+                continue
         bm = anchors.binder_module(prog)
 
         def reaches_binder(path_, depth=0):
@@ -338,7 +348,8 @@ def rule_R14_4(ctx):
             if si:
                 cp = tuple(p for p in f.canon_op(anchors.unwrap_carrier(prog, f, c.args[si[0]]))
                            if p not in ("&", "*"))
-                ok_scope = bool(cp) and cp[0] == ("call", pushes[0].bb)
+                ok_scope = bool(cp) and (cp[0] == ("call", pushes[0].bb) if pushes
+                                         else (cp[0] == ("arg", 2) and len(cp) == 1))
             ok_decl = False
             if bi:
                 cp = f.canon_op(c.args[bi[0]])
